@@ -64,6 +64,15 @@ def eof_universe():
         progs.append((("try", (("setstr", "s", b"ab"), ("match", L("a")), ("match", ENDM), ("appendc", "s", ("num", 33)), ("hook", "h")), ("outofspace",), handler), ("finish", "F")))
         progs.append((("try", (("append", "s", ("re", U.q("a", "+"))), ("match", ENDM), ("appendc", "s", ("num", 33)), ("hook", "h")), ("outofspace",), handler), ("hook", "h")))
         progs.append((("try", (("append", "s", ("re", U.q("a", "+"))), ("case", False, ((None, (ENDM,), (("appendc", "s", ("num", 33)), ("hook", "h"))), (None, (L("b"),), ())))), ("outofspace",), handler), ("hook", "h")))
+    # end-of-input at an iteration boundary whose body ends in an inverted set / wildcard (its error edge names End explicitly)
+    for tailm in (("re", ("seq", (RX["[^ab]"], RX["c"]))), ("re", ("seq", (RX["."], RX["c"]))), ("re", U.q("[^ab]", "+"))):
+        progs.append((("loop", None, (("case", False, ((None, (ENDM,), (("break", None),)), (None, (L("a"),), (n1,)))), ("optional", (("match", tailm), ("set", "m", ("num", 1)))))), ("set", "m", ("num", 2)), ("hook", "h")))
+        progs.append((("loop", None, (("match", L("a")), ("optional", (("match", tailm),)), ("optional", (("match", ENDM), ("break", None))))), ("hook", "h")))
+    # a program that ends in a greedy case one of whose clauses is a prefix of another: end() right after the shorter one finds the program finished
+    for sh, lg in ((L("a"), L("ab")), (("re", U.q("c", "+")), ("re", ("seq", (U.q("c", "+"), RX["b"])))), (L("a"), ("re", ("seq", (RX["a"], U.q("b", "+")))))):
+        progs.append((("match", L("x")), ("case", True, ((None, (sh,), ()), (None, (lg,), ())))))
+        progs.append((("match", L("x")), ("case", True, ((None, (sh,), (("set", "n", ("num", 1)),)), (None, (lg,), (("set", "n", ("num", 2)),))))))
+        progs.append((("match", L("x")), ("case", True, ((2, (sh,), ()), (1, (lg,), ()))), ("optional", (("match", L("!")),))))
     progs.append((("match", ENDM),))
     progs.append((("match", ENDM), ("hook", "h")))
     progs.append((("hook", "h"), ("match", ENDM)))
